@@ -93,7 +93,7 @@ func valKind(v Val) string {
 }
 
 func checkC10(c *Ctx) {
-	c.rule = "API driver: every receiver of a 51-value pool (all value types incl. objects, types, library functions, exception, Go value) x every member name extracted from the working tree (+unknown names) x {get, set, call, new, fn, str, dup, twin (continue on the copy), cmp, json} x argument tuples (arity 0..1 exhaustive over a 32-value boundary pool, arity 2 exhaustive in thorough, arity 2..4 random; for list / dictionary / text receivers additionally every position and position pair in [-2, length+2]), applied as step sequences on one receiver; plus scripted histories that copy a list / dictionary of 0..9 elements and alternate insertions and removals between the value and its copy, displaying both. Program driver: one- and two-statement Zn programs applying every operator / index / member / call / new / throw / loop form to input variables drawn from the same pools; plus user methods / type methods whose body ends in each of 25 failures (with no handler, a handler without and with 输出) whose call is placed in each of 26 consumer positions. Whole-program driver: programs made of definitions / comments / imports only and programs yielding each kind of value, through Execute and through the playground HTTP handler; runaway recursion (plain, mutual, through a type method, through a constructor) without a logical budget. Input-variable driver: texts without any statement (line breaks, comments, imports only), every right-hand-side kind, failing and ill-formed texts through ExecVarInputText. Host driver: 21 programs served by ZnHttpHandler that answer with an HTTP响应 object whose 头部 / 状态码 / 内容 have the wrong type or whose status is 0, negative, fractional, 99, 1000, 1e19, infinite or NaN. Violation = recovered Go panic, nil element without error, worker exit, or hang. distinct_nontrivial = distinct (receiver kind, step kind, member, arg kinds, outcome kind)"
+	c.rule = "API driver: every receiver of a 51-value pool (all value types incl. objects, types, library functions, exception, Go value) x every member name extracted from the working tree (+unknown names) x {get, set, call, new, fn, str, dup, twin (continue on the copy), cmp, json} x argument tuples (arity 0..1 exhaustive over a 32-value boundary pool, arity 2 exhaustive in thorough, arity 2..4 random; for list / dictionary / text receivers additionally every position and position pair in [-2, length+2]), applied as step sequences on one receiver; plus scripted histories that copy a list / dictionary of 0..9 elements and alternate insertions and removals between the value and its copy, displaying both. Program driver: one- and two-statement Zn programs applying every operator / index / member / call / new / throw / loop form to input variables drawn from the same pools; plus user methods / type methods whose body ends in each of 25 failures (with no handler, a handler without and with 输出) whose call is placed in each of 26 consumer positions. Whole-program driver: programs made of definitions / comments / imports only and programs yielding each kind of value, through Execute and through the playground HTTP handler; runaway recursion (plain, mutual, through a type method, through a constructor) without a logical budget. Input-variable driver: texts without any statement (line breaks, comments, imports only), every right-hand-side kind, failing and ill-formed texts through ExecVarInputText. Traversal driver: every mutating list / dictionary method applied to the collection a 遍历 is running over (lists of 1, 2, 3, 6 items; directly, in a called method, through an alias parameter). Host driver: 21 programs served by ZnHttpHandler that answer with an HTTP响应 object whose 头部 / 状态码 / 内容 have the wrong type or whose status is 0, negative, fractional, 99, 1000, 1e19, infinite or NaN. Violation = recovered Go panic, nil element without error, worker exit, or hang. distinct_nontrivial = distinct (receiver kind, step kind, member, arg kinds, outcome kind)"
 	c.assumptions = []string{"library functions run inside the worker's private scratch directory", "member tables are read from /repo sources at check time by a string-literal scan"}
 	rng := c.Rand("c10")
 	members := memberNames()
@@ -525,6 +525,51 @@ func checkC10(c *Ctx) {
 				map[string]interface{}{"req": req})
 		}
 	})
+	// ---------------------------------------------------------------- collections changed while they are traversed
+	// what such a loop yields is left open (U2) - but it yields something: a value or a Zn error,
+	// never a Go panic. Every mutating method of lists and dictionaries inside a 遍历 / 每当 over the
+	// same collection, directly, through a method, through an alias parameter
+	{
+		type mw struct{ name, src string }
+		mws := []mw{}
+		listOps := []string{"以甲（右移）", "以甲（左移）", "以甲（后增：9）", "以甲（前增：9）", "以甲（交换：1、2）", "以甲（合并：【7，8】）", "以甲（新增：0、5）", "甲#1 = 0", "甲 = 【】", "甲 = 【1】", "以甲（右移）\n\t以甲（右移）", "令乙 = 以甲（逆序）"}
+		for _, n := range []int{1, 2, 3, 6} {
+			items := []string{}
+			for k := 1; k <= n; k++ {
+				items = append(items, fmt.Sprint(k))
+			}
+			lit := "【" + strings.Join(items, "，") + "】"
+			for oi, op := range listOps {
+				mws = append(mws,
+					mw{fmt.Sprintf("list%d/value-loop/op%d", n, oi), "令甲 = " + lit + "\n以值遍历甲：\n\t" + op + "\n输出 甲\n"},
+					mw{fmt.Sprintf("list%d/index-loop/op%d", n, oi), "令甲 = " + lit + "\n以序、值遍历甲：\n\t" + op + "\n\t（显示：序、值）\n输出 甲\n"},
+					mw{fmt.Sprintf("list%d/in-method/op%d", n, oi), "令甲 = " + lit + "\n如何改？\n\t" + op + "\n以值遍历甲：\n\t（改）\n输出 甲\n"},
+					mw{fmt.Sprintf("list%d/alias-parameter/op%d", n, oi), "如何跑？\n\t输入甲\n\t以值遍历甲：\n\t\t" + strings.ReplaceAll(op, "\n\t", "\n\t\t") + "\n\t输出 甲\n输出（跑：" + lit + "）\n"})
+			}
+		}
+		dictOps := []string{"以典（移除：“a”）", "以典（移除：键）", "以典（写入：“z”、1）", "典#“y” = 2", "典 = 【=】", "以典（移除：“a”）\n\t以典（移除：“b”）\n\t以典（移除：“c”）"}
+		for oi, op := range dictOps {
+			mws = append(mws,
+				mw{fmt.Sprintf("dict/pair-loop/op%d", oi), "令典 = 【“a” = 1，“b” = 2，“c” = 3】\n以键、值遍历典：\n\t" + op + "\n输出 典\n"},
+				mw{fmt.Sprintf("dict/value-loop/op%d", oi), "令典 = 【“a” = 1，“b” = 2，“c” = 3】\n令键 = “b”\n以值遍历典：\n\t" + op + "\n输出 典\n"})
+		}
+		mreqs := make([]Req, len(mws))
+		for i, m := range mws {
+			mreqs[i] = execReq(m.src)
+			mreqs[i].EvalBudget = 200000
+		}
+		c.runBatches(mreqs, 40, func(i int, req *Req, resp *Resp) {
+			c.Eval()
+			m := mws[i]
+			c.Nontrivial("mutate-while-iterating|" + m.name + "|" + resp.Kind)
+			c.Count("traversed_collections_changed_in_the_loop", 1)
+			switch resp.Kind {
+			case "value", "error", "budget":
+			default:
+				c.Violation("prog:mutate-while-iterating:"+m.name, fmt.Sprintf("%s: %s %s %s\nprogram:\n%s", m.name, resp.Kind, clip(resp.Panic, 300), clip(resp.Stderr, 300), m.src), map[string]interface{}{"req": req})
+			}
+		})
+	}
 	// ---------------------------------------------------------------- the host that serves a program
 	// a program served by ZnHttpHandler hands back an HTTP响应 object whose parts have the wrong
 	// type, or a status no response can carry: the handler must answer, not panic (in the
